@@ -30,13 +30,16 @@ type XCheck struct {
 	WallS        float64        `json:"wall_s"`
 }
 
+// at most 8 second-opinion processes at a time, over all jobs (they share the machine with the next job's workers)
+var xcheckSem = make(chan struct{}, 8)
+
 var xSolvers = []struct {
 	name string
 	argv []string
 	pre  string
 }{
-	{"z3-4.8.12", []string{"/usr/bin/z3", "-smt2", "-in", "-T:20"}, ""},
-	{"cvc5-1.0", []string{"cvc5", "--lang=smt2", "--tlimit=20000"}, "(set-logic ALL)\n"},
+	{"z3-4.8.12", []string{"/usr/bin/z3", "-smt2", "-in", "-T:3"}, ""},
+	{"cvc5-1.0", []string{"cvc5", "--lang=smt2", "--tlimit=10000"}, "(set-logic ALL)\n"},
 }
 
 func runXCheck(samples []xsample, dumpDir string) *XCheck {
@@ -47,7 +50,7 @@ func runXCheck(samples []xsample, dumpDir string) *XCheck {
 	t0 := time.Now()
 	var mu sync.Mutex
 	var wg sync.WaitGroup
-	sem := make(chan struct{}, 16)
+	sem := xcheckSem
 	for i, smp := range samples {
 		xc.Sampled++
 		if smp.res == Sat {
